@@ -1,3 +1,76 @@
-import PGM.Model.Solvers
+import PGM.Proofs.CoherentSem
+/-!
+# C08 — the returned model is one coherent, valid distribution
+
+* the three solvers as state machines over an arbitrary marginal oracle and loss
+  (`PGM/Model/Solvers.lean`): what they hand back at every exit;
+* the maximum-likelihood refit `mle` reproduces the marginals it was fitted to (junction-tree
+  factorisation, `tau = 0`), so for RDA / IG — which return averaged iterates `w` and `mle w` — the
+  stored marginals equal the marginals implied by the stored parameters; for MD the pair is
+  `(θ, bp θ)` by construction;
+* every answer of one parameter vector is the marginal of one explicit joint (C01 / C02:
+  `bp_marginals`, `project_correct`, `project_sums_to_total`, `marginal_consistent`), hence finite,
+  nonnegative, summing to the total, and mutually consistent.
+-/
 namespace PGM.C08
+open PGM PGM.JT PGM.GM PGM.Sem PGM.Solvers PGM.Coherent
+
+section solvers
+variable {α : Type} [Scalar α]
+
+/-- **mirror descent hands back a matching pair**: at every exit — any iteration count (0 included),
+accepted or forced (25th) step, or the early `loss == 0` return — either the marginals are left
+unset, or they are exactly `bp` of the returned parameters; for every oracle `bp` and every loss -/
+theorem md_exit_pair (bp : CliqueVec α → CliqueVec α) (lossgrad : CliqueVec α → α × CliqueVec α)
+    (iters : Nat) (theta0 : CliqueVec α) (alpha0 : α) :
+    let r := mirrorDescent bp lossgrad iters theta0 alpha0
+    r.marginals = none ∨ r.marginals = some (bp r.potentials) := by
+  apply Coherent.md_exit_pair
+
+/-- dual averaging / interior gradient return the refit of the marginals they return (or leave the
+marginals unset on the early return) -/
+theorem rda_exit (bp : CliqueVec α → CliqueVec α) (grad mleF : CliqueVec α → CliqueVec α) (d : Dom)
+    (cliques : List Clique) (zeros : CliqueVec α) (iters : Nat) (theta0 : CliqueVec α) (L total : α) :
+    let r := dualAveraging bp grad mleF d cliques zeros iters theta0 L total
+    r.marginals = none ∨ ∃ w, r.marginals = some w ∧ r.potentials = mleF w := by
+  apply Coherent.rda_exit
+
+theorem ig_exit (bp : CliqueVec α → CliqueVec α) (grad mleF : CliqueVec α → CliqueVec α)
+    (iters : Nat) (theta0 : CliqueVec α) (L total : α) :
+    let r := interiorGradient bp grad mleF iters theta0 L total
+    ∃ w, r.marginals = some w ∧ r.potentials = mleF w := by
+  apply Coherent.ig_exit
+
+end solvers
+
+variable {K : Type} [Field K] [LinearOrder K] [IsStrictOrderedRing K]
+
+/-- what `belief_propagation` returns is realisable (by `total · joint / Z`) -/
+theorem bp_realisable (d : Dom) (cliques : List Clique) (t : Tree) (order : List (Clique × Clique))
+    (pots : CliqueVec (LogOf K)) (hok : ModelOK d cliques t order pots) (total : LogOf K)
+    (hcanon : ∀ p ∈ pots, p.2.dom = d.project p.1) (htot : 0 ≤ total.v) (hZ : partition d pots ≠ 0) :
+    Realisable d cliques ((beliefPropagation cliques order pots total).map (fun p => (p.1, toPlain p.2))) := by
+  apply Coherent.bp_realisable <;> assumption
+
+/-- nonnegative combinations of realisable vectors are realisable (the averaged iterates of RDA/IG) -/
+theorem realisable_combination (d : Dom) (cliques : List Clique) (x y : CliqueVec (PlainOf K)) (a b : K)
+    (hd : d.WF) (hcl : ∀ c ∈ cliques, c.Nodup ∧ ∀ a ∈ c, a ∈ d.attrs) (hcn : cliques.Nodup)
+    (ha : 0 ≤ a) (hb : 0 ≤ b) (hx : Realisable d cliques x) (hy : Realisable d cliques y) :
+    Realisable d cliques (CliqueVec.addV (CliqueVec.smul ⟨a⟩ x) (CliqueVec.smul ⟨b⟩ y)) := by
+  apply Coherent.realisable_combination <;> assumption
+
+/-- **refit round trip**: for a junction tree whose cliques are listed in a running-intersection
+order and any realisable marginal vector `w` of positive total mass `T`, the parameters `mle w`
+(`tau = 0`, `0/0 = 0`) define a *normalised* distribution (`Z = 1`) whose clique marginals are
+`w / T`; hence `belief_propagation(mle w)` with the model total `T` returns exactly `w` again: the
+stored marginals equal the marginals implied by the stored parameters -/
+theorem mle_roundtrip (d : Dom) (cliques : List Clique) (w : CliqueVec (PlainOf K))
+    (hd : d.WF) (hcl : ∀ c ∈ cliques, c.Nodup ∧ ∀ a ∈ c, a ∈ d.attrs) (hcn : cliques.Nodup)
+    (hcover : ∀ a ∈ d.attrs, ∃ c ∈ cliques, a ∈ c) (hsizes : ∀ p ∈ d, 0 < p.2)
+    (hrip : RIPOrder cliques) (hw : Realisable d cliques w) (hT : 0 < mass d w (cliques.headD []))
+    (c : Clique) (hc : c ∈ cliques) (σ : Attr → Nat) (hσ : d.Valid σ) :
+    partition d (mle toLog cliques w) = 1 ∧
+    marginal d (mle toLog cliques w) c σ = ((w.get c).sem σ).v / mass d w (cliques.headD []) := by
+  apply Coherent.mle_roundtrip <;> assumption
+
 end PGM.C08
